@@ -2,6 +2,7 @@ package main
 
 import (
 	"fmt"
+	"hash/fnv"
 	"os"
 	"runtime"
 	"strconv"
@@ -30,6 +31,43 @@ func conc(c *Case) {
 				time.Sleep(time.Duration(cc.HookSleepMicros) * time.Microsecond)
 			}
 		}
+	}
+	// compilation next to the loads (C13): golden results first, then a goroutine that compiles for as long as loads run
+	var besideStop atomic.Bool
+	var besideDone chan struct{}
+	var besideRounds atomic.Int64
+	var besideMismatch atomic.Value
+	if cc.CompileBeside {
+		var names []string
+		for k := 0; ; k++ {
+			if _, ok := cc.Policies[fmt.Sprintf("beside%d", k)]; !ok {
+				break
+			}
+			names = append(names, fmt.Sprintf("beside%d", k))
+		}
+		digest := func(name string) string {
+			spec := cc.Policies[name]
+			ins, err := spec.Policy().Assemble()
+			h := fnv.New64a()
+			fmt.Fprint(h, ins)
+			return fmt.Sprintf("%d instructions, error %v, digest %x", len(ins), err, h.Sum64())
+		}
+		golden := map[string]string{}
+		for _, n := range names {
+			golden[n] = digest(n)
+		}
+		besideDone = make(chan struct{})
+		go func() {
+			defer close(besideDone)
+			for !besideStop.Load() {
+				for _, n := range names {
+					if d := digest(n); d != golden[n] && besideMismatch.Load() == nil {
+						besideMismatch.Store(fmt.Sprintf("policy %s: %s before the first load, %s while loads were running", n, golden[n], d))
+					}
+				}
+				besideRounds.Add(1)
+			}
+		}()
 	}
 	ws := startWorkers(len(cc.Plans))
 	start := time.Now()
@@ -83,6 +121,14 @@ func conc(c *Case) {
 	goFlag.Store(true)
 	wg.Wait()
 	end := time.Since(start).Nanoseconds()
+	besideText := ""
+	if cc.CompileBeside {
+		besideStop.Store(true)
+		<-besideDone
+		if m := besideMismatch.Load(); m != nil {
+			besideText = m.(string)
+		}
+	}
 	// final state of every thread
 	final := map[string]any{}
 	for ti, w := range ws {
@@ -98,6 +144,6 @@ func conc(c *Case) {
 		})
 		final[strconv.Itoa(ti)] = m
 	}
-	emit(map[string]any{"ev": "conc", "pid": os.Getpid(), "records": recs, "final": final, "end": end})
+	emit(map[string]any{"ev": "conc", "pid": os.Getpid(), "records": recs, "final": final, "end": end, "beside_rounds": besideRounds.Load(), "beside_mismatch": besideText})
 	emit(map[string]any{"ev": "done"})
 }
